@@ -20,26 +20,32 @@ V(rule, disc, e) == [prop |-> "C19", rule |-> rule, disc |-> disc, case |-> e.ca
 Cls(p) == IF p < MinBackoff THEN "period<60" ELSE IF p = MinBackoff THEN "period=60" ELSE "period>60"
 
 S0 == [period |-> 0, runs |-> 0, running |-> FALSE, lastFinish |-> 0, lastOk |-> TRUE, nfail |-> 0, prevDelay |-> 0,
-       hupAt |-> -1, killAt |-> -1, exited |-> FALSE]
+       hupAt |-> -1, killAt |-> -1, exited |-> FALSE,
+       race |-> FALSE,       \* the last signal became ready in the same poll as the timer: either may be served first
+       raceRun |-> FALSE]    \* ... and the timer was: one run started at that instant
 
 Step(st, e) ==
   CASE e.ev = "reset" -> S0
     [] e.ev = "cfg" -> [st EXCEPT !.period = e.period]
-    [] e.ev = "start" -> [st EXCEPT !.running = TRUE,
+    [] e.ev = "start" -> [st EXCEPT !.running = TRUE, !.raceRun = st.race /\ ~st.raceRun /\ (e.t = st.killAt \/ e.t = st.hupAt), !.race = FALSE,
                                   !.prevDelay = IF st.runs = 0 \/ st.lastOk \/ st.hupAt >= 0 THEN 0 ELSE e.t - st.lastFinish,
-                                  !.hupAt = -1]
+                                  (* a SIGHUP that raced with the timer may still be served after the timer's run *)
+                                  !.hupAt = IF st.race /\ ~st.raceRun /\ e.t = st.hupAt THEN st.hupAt ELSE -1]
     [] e.ev = "finish" -> [st EXCEPT !.running = FALSE, !.runs = @ + 1, !.lastFinish = e.t, !.lastOk = e.ok,
                                    !.nfail = IF e.ok THEN 0 ELSE @ + 1]
-    [] e.ev = "signal" -> IF e.sig = "hup" THEN [st EXCEPT !.hupAt = e.t] ELSE [st EXCEPT !.killAt = e.t]
+    [] e.ev = "signal" -> LET r == "same_poll" \in DOMAIN e /\ e.same_poll IN
+                          IF e.sig = "hup" THEN [st EXCEPT !.hupAt = e.t, !.race = r] ELSE [st EXCEPT !.killAt = e.t, !.race = r]
     [] e.ev = "exit" -> [st EXCEPT !.exited = TRUE]
     [] OTHER -> st
 
 LineViol(st, e) ==
   CASE e.ev = "start" ->
          LET delay == e.t - st.lastFinish IN
-         IF st.killAt >= 0 THEN {V("RunStartedAfterTerminationSignal", Cls(st.period), e)}
+         IF st.killAt >= 0 /\ st.race /\ ~st.raceRun /\ e.t = st.killAt THEN {}      \* the timer was served first, once
+         ELSE IF st.killAt >= 0 THEN {V("RunStartedAfterTerminationSignal", Cls(st.period), e)}
          ELSE IF st.runs = 0 THEN {}
-         ELSE IF st.hupAt >= 0 THEN (IF e.t = st.hupAt THEN {} ELSE {V("SighupDidNotTriggerImmediateRun", Cls(st.period), e)})
+         ELSE IF st.hupAt >= 0 /\ st.raceRun /\ e.t = st.lastFinish THEN {}          \* the timer's run first, then the SIGHUP's
+         ELSE IF st.hupAt >= 0 /\ ~st.raceRun THEN (IF e.t = st.hupAt THEN {} ELSE {V("SighupDidNotTriggerImmediateRun", Cls(st.period), e)})
          ELSE IF delay = 0 THEN {V("RunsFollowEachOtherWithoutDelay", Cls(st.period), e)}
          ELSE IF st.lastOk THEN (IF AfterSuccessOk(st.period, delay) THEN {} ELSE {V("PeriodNotRestoredAfterSuccess", Cls(st.period), e)})
          ELSE IF st.nfail = 1 /\ delay # MinBackoff THEN {V("FirstRetryNotAfterOneMinute", Cls(st.period), e)}
@@ -49,11 +55,12 @@ LineViol(st, e) ==
          ELSE {}
     [] e.ev = "exit" ->
          (IF st.killAt < 0 THEN {V("ExitWithoutSignal", Cls(st.period), e)}
+          ELSE IF st.raceRun /\ e.t = st.lastFinish THEN {}                            \* ... and the signal right after that run
           ELSE IF e.t # st.killAt THEN {V("TerminationSignalNotPrompt", Cls(st.period), e)}
           ELSE IF ~e.ok THEN {V("ExitNotClean", Cls(st.period), e)} ELSE {})
     [] e.ev = "end" ->
          (IF st.killAt >= 0 THEN {V("TerminationSignalIgnored", Cls(st.period), e)} ELSE {})
-         \cup (IF st.hupAt >= 0 THEN {V("SighupDidNotTriggerImmediateRun", Cls(st.period), e)} ELSE {})
+         \cup (IF st.hupAt >= 0 /\ ~st.raceRun THEN {V("SighupDidNotTriggerImmediateRun", Cls(st.period), e)} ELSE {})
     [] e.ev = "panic" -> {V("Panic", "", e)}
     [] OTHER -> {}
 
